@@ -21,9 +21,17 @@ func vSetup() (*vCtx, *Evaluator) {
 }
 
 func vScaleEq(s rlwe.Scale, num, den int64) bool {
-	// s == num/den exactly
+	// s == num/den: exactly in the engine (scales are exact reals there), up to 2^-100 relative natively
+	// (big.Float scales have a finite mantissa)
 	lhs := new(big.Float).SetPrec(256).Mul(&s.Value, new(big.Float).SetPrec(256).SetInt64(den))
-	return lhs.Cmp(new(big.Float).SetPrec(256).SetInt64(num)) == 0
+	rhs := new(big.Float).SetPrec(256).SetInt64(num)
+	if vIsAlgebraic() {
+		return lhs.Cmp(rhs) == 0
+	}
+	d := new(big.Float).SetPrec(256).Sub(lhs, rhs)
+	d.Abs(d)
+	d.Mul(d, new(big.Float).SetPrec(256).SetMantExp(big.NewFloat(1), 100))
+	return d.Cmp(rhs) < 0
 }
 
 func VerifH_C06_Arithmetic() {
